@@ -333,6 +333,43 @@ theorem C05_unknown_rejected (P : Parser) (S : Settings) (ns : KV) (kv : Key × 
     have : decodeLeafVal P (segsOf (dest kv.1).toList, kv.2) = none := by simp [decodeLeafVal, hseg, hun]
     simp only [apply, decode, render, tr (decodeLeafVal P) _ _ hm this, Option.map_none]
 
+/-! ## branch keys and `ActionParser` groups (facts regenerated from `_actions.py`: Gen/ChannelTables) -/
+
+/-- `_is_branch_key` has the dot boundary: a key is an inner node only if some dest starts with `key + "."` -/
+theorem C05_branch_key_boundary (P : Parser) (key : List Char) :
+    isBranchKey P key = P.decls.any (fun d => (key ++ ['.']).isPrefixOf (destL d.key)) := by
+  simp [isBranchKey, Jap.Gen.branchKeyDotBoundary]
+
+/-- … so a branch key is followed by a dot in some dest: a truncated name (`mod` for `model.x`) is not one -/
+theorem C05_branch_key_dot (P : Parser) (key : List Char) (h : isBranchKey P key = true) :
+    ∃ d ∈ P.decls, ∃ rest, destL d.key = key ++ '.' :: rest := by
+  rw [C05_branch_key_boundary] at h
+  obtain ⟨d, hd, hp⟩ := List.any_eq_true.mp h
+  obtain ⟨t, ht⟩ := List.isPrefixOf_iff_prefix.mp hp
+  exact ⟨d, hd, t, by rw [← ht]; simp⟩
+
+theorem C05_branch_key_examples :
+    let P : Parser := ⟨[], none, [⟨⟨"model", ["x"]⟩, .json⟩, ⟨⟨"model", ["y"]⟩, .json⟩, ⟨⟨"trainer", ["optimizer", "lr"]⟩, .json⟩]⟩
+    isBranchKey P "model".toList = true ∧ isBranchKey P "mod".toList = false ∧ isBranchKey P "model.x".toList = false
+    ∧ isBranchKey P "trainer.optimizer".toList = true ∧ isBranchKey P "trainer.opt".toList = false := by decide
+
+/-- the group-level variable is applied before the leaf variables of the group: the leaf variable wins -/
+theorem C05_group_env_leaf_wins (g rest : List SKey) (hr : rest ≠ []) (v : V) (mapping ns : KV) :
+    getK (g ++ rest) (envGroupCode g mapping [(g ++ rest, v)] ns) = some v := by
+  have hk : g ++ rest ≠ [] := by
+    cases g <;> simp [hr]
+  simp only [envGroupCode, envGroup, Jap.Gen.groupActionFirst, if_true, assign, List.foldl_cons, List.foldl_nil]
+  exact getK_setK_same (g ++ rest) v _ hk
+
+/-- with the other order the leaf variable is lost: the branch given by the group variable comes back -/
+theorem C05_group_env_order_matters :
+    let g := [mark [] "inner"]
+    let k := [mark [] "inner", mark [] "x"]
+    let mapping : KV := [(mark [] "x", .atom 0), (mark [] "y", .atom 1)]
+    let ns : KV := [(mark [] "inner", .ns [(mark [] "x", .atom 0), (mark [] "y", .atom 0)])]
+    getK k (envGroup true g mapping [(k, .atom 2)] ns) = some (.atom 2)
+    ∧ getK k (envGroup false g mapping [(k, .atom 2)] ns) = some (.atom 0) := ⟨rfl, rfl⟩
+
 /-! ## non-vacuity: the hypotheses hold for a non-trivial parser with the regenerated clash table -/
 
 def tok1e5 : NumTok := ⟨false, ['1'], none, some ⟨false, none, ['5']⟩⟩
